@@ -20,7 +20,7 @@ open Finset BigOperators
 set_option linter.unusedSectionVars false
 
 namespace GT.C13
-open GT Matrix
+open GT GT.Targets Matrix
 
 section generic
 variable {K : Type*} [Field K] [LinearOrder K] [IsStrictOrderedRing K] {n : ℕ} {r : K → K}
@@ -133,7 +133,7 @@ theorem pointAlong_dist (hr : IsSqrt r) (ph vh : Fin (n + 1) → K) (ch sh : K)
     rw [hyy]; have : 0 < (1 / ch) ^ 2 := by positivity
     linarith
   rw [coshDist_timelike hr _ _ (by rw [hp]; norm_num) hy, hpy, hp, hyy, neg_neg, neg_neg,
-    hr.one, hr.sq (by positivity : (0 : K) ≤ 1 / ch)]
+    isSqrt_one hr, hr.sq (by positivity : (0 : K) ≤ 1 / ch)]
   simp
 
 /-! ## `unit_tangent_towards` followed by `point_along d(p,q)` arrives at `q` -/
@@ -178,7 +178,7 @@ theorem towards_core (hr : IsSqrt r) (p q : Fin (n + 1) → K) (hp : mink p p < 
   have hwpos : 0 < mink (projHyp p (fun i => q i - p i)) (projHyp p (fun i => q i - p i)) := by
     rw [hww]; positivity
   have hrw : r (mink (projHyp p (fun i => q i - p i)) (projHyp p (fun i => q i - p i)))
-      = b * sh := by rw [hww]; exact hr.mul_self (by positivity)
+      = b * sh := by rw [hww]; exact isSqrt_mul_self hr (by positivity)
   -- the normalised tangent vector and its `.vector`
   have hu : u = fun i => (q i - (ch * b / a) * p i) / (b * sh) := by
     show tvNormalizedVec r p (fun i => q i - p i) = _
@@ -193,7 +193,7 @@ theorem towards_core (hr : IsSqrt r) (p q : Fin (n + 1) → K) (hp : mink p p < 
     rw [hpu, hu, mink_div_left, mink_div_right, ← hw, hww]; field_simp
   obtain ⟨e0, e1⟩ := tvOriginTo_rows hr p u hp (by rw [huu]; exact one_pos)
   rw [← ha_def] at e0
-  rw [e0, e1, huu, hr.one, hpu, hu]
+  rw [e0, e1, huu, isSqrt_one hr, hpu, hu]
   funext i
   unfold pointAlong
   field_simp
